@@ -1,6 +1,6 @@
-from xeng import progs2
+from xeng import progs, progs2, progs3
 from . import _common
 
 
 def run(out):
-    _common.run(out, 'C06', x_corpora=[(progs2.c06_corpus, 'c06')], s_props=['C06'])
+    _common.run(out, 'C06', x=[dict(fn=progs2.c06_corpus, name='c06')], s_props=['C06'])
